@@ -284,3 +284,61 @@ def rule_range_types(P):
                        "`%s` is instantiated for a forest whose values are %s: terminals / edge values are then decoded with the wrong scalar type" % (tyn, "integers" if want_int else "reals"), k.line))
     R.require_floor(70, "typed instantiations in operation factories")
     return R
+
+
+_LAB = {"MULTI_TERMINAL": "MT", "EVPLUS": "PLUS", "INDEX_SET": "PLUS", "EVTIMES": "TIMES"}
+
+
+def rule_labeling_family(P):
+    """operation factories pick a policy family per edge labeling: EdgeOp_plus / evplus_* for EV+ and index sets, EdgeOp_times / evstar_* for EV*,
+    EdgeOp_none / mt_* for multi-terminal forests; the family named in the instantiated type must be the labeling the construction is guarded by"""
+    R = RuleResult("dispatch.labeling-family", "in every operation factory, an implementation of the EV+ family (EdgeOp_plus, evplus_*) is constructed only under an EV+/index-set test, of the EV* family (EdgeOp_times, evstar_*) only under an EV* test, of the multi-terminal family (EdgeOp_none, mt_*) only under a multi-terminal test")
+    seen = set()
+    for f in sorted(P.fns.values(), key=lambda f: (f["file"], f["line"], f["inst"])):
+        if not f.get("cfg") or not (f["q"].endswith("::build_new") or f["q"].endswith("::build")) or (f["file"], f["line"]) in seen:
+            continue
+        seen.add((f["file"], f["line"]))
+        g = Graph(f)
+        for k in g.nodes:
+            if k.kind != "new":
+                continue
+            ty = re.sub(r"\s+", "", k.ev.get("type", ""))
+            fam = set()
+            if re.search(r"EdgeOp_plus|evplus|EVPLUS|evp_", ty):
+                fam.add("PLUS")
+            if re.search(r"EdgeOp_times|evstar|evtimes", ty):
+                fam.add("TIMES")
+            if re.search(r"EdgeOp_none|(?<![a-z])mt_|_mt\b|_mt<", ty):
+                fam.add("MT")
+            if not fam:
+                continue
+            lab = set()
+            for t, arm in _context(g, k):
+                t = re.sub(r"\s+", "", t)
+                if arm == "true":
+                    if re.search(r"isEVPlus\(\)|isIndexSet\(\)", t):
+                        lab.add("PLUS")
+                    if "isEVTimes()" in t:
+                        lab.add("TIMES")
+                    if "isMultiTerminal()" in t:
+                        lab.add("MT")
+                    m = re.search(r"getEdgeLabeling\(\)==edge_labeling::(\w+)", t)
+                    if m:
+                        lab.add(_LAB.get(m.group(1), m.group(1)))
+                if arm == "case":
+                    m = re.search(r"edge_labeling::(\w+)", t)
+                    if m:
+                        lab.add(_LAB.get(m.group(1), m.group(1)))
+            if not lab:
+                continue
+            R.functions.add(f["inst"])
+            R.paths += 1
+            tyn = ty.replace("MEDDLY::", "").replace("class", "")
+            iid = "%s: %s under %s" % (base_name(f["q"]).replace(M, "")[:50], tyn[:70], "/".join(sorted(lab)))
+            if fam & lab:
+                R.ok(iid, where(f, k.line))
+            else:
+                R.fail(iid, where(f, k.line), Finding(R.rule, f["file"], base_name(f["q"]), "new:%s@%s" % (tyn[:60], "/".join(sorted(lab))),
+                       "`%s` (family %s) is constructed for forests labelled %s: edge values are combined with the wrong algebra" % (tyn, "/".join(sorted(fam)), "/".join(sorted(lab))), k.line))
+    R.require_floor(70, "family-typed instantiations in operation factories")
+    return R
